@@ -837,7 +837,12 @@ func (c *SpecCtx) call(x *SCall) Val {
 			e.needBytes()
 			s.groups["bytes"] = true
 		}
-		return Val{T: s.ghostRead(g, key), Ty: g.Ty}
+		gv := Val{T: s.ghostRead(g, key), Ty: g.Ty}
+		if _, isSl := g.Ty.Underlying().(*types.Slice); isSl && !strings.Contains(gv.T, "q_") {
+			// ghosts of slice type hold well-formed slice headers (they are only ever assigned from real slices)
+			s.assume(e.typeInv(g.Ty, gv.T))
+		}
+		return gv
 	}
 	switch x.Fn {
 	case "key":
